@@ -58,4 +58,11 @@ VARIANTS = [
         dict(file=PDB, old="write_pdb_string(system, conect, omit_charges, nan_missing_pos)", new="write_pdb_string(system, omit_charges, conect, nan_missing_pos)")]),
     dict(name='benign-write_pdb-keywords', expect='silent', edits=[
         dict(file=PDB, old="write_pdb_string(system, conect, omit_charges, nan_missing_pos)", new="write_pdb_string(system, omit_charges=omit_charges, conect=conect, nan_missing_pos=nan_missing_pos)")]),
+    dict(name='benign formatter regex gains a non-capturing group', expect='silent', edits=[
+        dict(file='vermouth/truncating_formatter.py', old="([\\+\\- ])?(#)?(0)?", new="([\\+\\- ])?(?:z)?(#)?(0)?")]),
+    dict(name='formatter regex gains a capturing group, indices not shifted (seed C03_s)', expect='fire', key='FMT-spec-parse|groups', edits=[
+        dict(file='vermouth/truncating_formatter.py', old="([\\+\\- ])?(#)?(0)?", new="([\\+\\- ])?(z)?(#)?(0)?")]),
+    dict(name='benign formatter regex gains a capturing group, indices shifted accordingly', expect='silent', edits=[
+        dict(file='vermouth/truncating_formatter.py', old="([\\+\\- ])?(#)?(0)?", new="([\\+\\- ])?(z)?(#)?(0)?"),
+        dict(file='vermouth/truncating_formatter.py', old=".group(2, 3, 4, 5, 6, 7, 8, 10, 11, 12)", new=".group(2, 3, 4, 6, 7, 8, 9, 11, 12, 13)")]),
 ]
